@@ -550,7 +550,16 @@ func (r *rec) collide(corpus []string) {
 			child bool
 		}
 		var pairs []pair
-		for _, l := range bySig {
+		// (in a fixed order: the same seed must give the same scenarios, or a replay shows something else)
+		var keys []key
+		for k := range bySig {
+			keys = append(keys, k)
+		}
+		sort.Slice(keys, func(i, j int) bool {
+			return keys[i].b < keys[j].b || keys[i].b == keys[j].b && keys[i].sig < keys[j].sig
+		})
+		for _, k := range keys {
+			l := bySig[k]
 			for i := 0; i < len(l); i++ {
 				for j := 0; j < len(l); j++ {
 					if i != j && pool[l[i]].b.Hash() != pool[l[j]].b.Hash() {
